@@ -31,6 +31,7 @@ func checkC08(c *Ctx) {
 	c.noGoroutineFromHandler()
 	c.retainedInsertStores()
 	c.retainedIsDeepCopy()
+	c.retainedStoredClean()
 	c.endOfLevelsSignal()
 	c.lookupsConsultTheTree()
 	c.R.Rule(ruleG5, "storage whose address is handed out of a critical section (the retained message returned by the lookup) is never mutated in place afterwards: no Decode/Set*/Encode-into/copy-into on a value loaded from the stored field; updates replace the stored object by a freshly allocated one.")
